@@ -5,7 +5,7 @@ GMP configuration (cfg rel) and in the boost.multiprecision configuration (cfg b
 mp_boost.cpp is compiled); the driver evaluates the defining identity of each function directly."""
 import vlib
 
-PROOF_MODULES = []   # the C32 .vo files are compiled directly with coqc (see the final report for the order)
+PROOF_MODULES = ["C32/NtProofsRoot.vo", "C32/NtProofsPPD.vo", "C32/NtProofsPF.vo", "C32/NtProofsMisc.vo", "C32/NtProofsQR.vo", "C32/NtProofsTotient.vo", "C32/NtProofsFactor.vo", "C32/NtProofsComb.vo", "C32/NtProofsCrt.vo", "C32/NtProofsPowm.vo", "C32/NtProofsGcd.vo", "C32/NtProofsDiv.vo", "C32/NtBounded.vo", "C32/NtBoundedQ.vo"]
 OBLIGATIONS = [
     "C32/P_division.v", "C32/P_division_by_zero.v", "C32/P_division_unique.v", "C32/P_mp_fdiv.v", "C32/P_gcd_lcm.v", "C32/P_gcd_ext.v",
     "C32/P_mod_inverse.v", "C32/P_crt.v", "C32/P_crt_reduced_refuted.v", "C32/P_mp_powm.v", "C32/P_powermod.v",
